@@ -5,16 +5,24 @@ Correspondence (model ≈ code), all through the Lean driver:
      `PurePosixPath(a, b)` on boundary and random strings;
   P  `FileServer.request_to_localpath` (and the key `add_observation` stores) vs
      `requestToLocalPath` for several root forms;
-  R  `FileServer.render` / `needs_blockwise_assembly` on wire-decoded requests in a scratch
-     tree vs `handle`: response code, Block2, payload and the exact sequence of file-system
-     calls (as seen by the jail of harness/c19_jail.py), with the operating system's answers
-     (stat kind, directory entries, file bytes, ETag hits) measured by the harness beforehand
-     and given to the model as its `World`.
+  A  what the program's own start-up (`FileServerProgram()` on a fake `sys.argv`: build_parser, parse_args,
+     extract_server_arguments, start_with_options; only the creation of the network context is stubbed) makes
+     of a command line -- write flag, ETag length, root -- vs `parseArgv`;
+  H  histories: `FileServer.render` / `needs_blockwise_assembly` / `add_observation` / GET with Observe: 0
+     through `render_to_pipe` / rounds of `check_files_for_refreshes` (virtual clock) on wire-decoded requests in
+     a scratch tree vs `Server.run`: response code, Block2, payload and the exact sequence of file-system calls
+     of every step (as seen by the jail of harness/c19_jail.py), with the operating system's answers (stat kind,
+     directory entries, file bytes, ETag hits, files gone at a refresh round) measured by the harness beforehand
+     and given to the model as its `World`; what the observation table holds is the model's own state.
 Oracle (independent reading of the property over the jail's log and the tree):
-  every call names a path inside the root (nothing was refused by the jail); without write
-  the tree (names, types, sizes, contents, mtimes, inodes) is unchanged and no modifying call
-  was made; a request whose naive path leaves the root is answered with an error and changes
-  nothing; a block-wise fetch of a file, for every szx, equals the file's content.
+  every call names a path inside the root (nothing was refused by the jail) -- requests and refresh rounds;
+  without write permission (constructor flag; or no `--write` on the command line; or the constructor's
+  defaults) the tree (names, types, sizes, contents, mtimes, inodes) is unchanged, no modifying call was made
+  and PUT/DELETE are refused; a request whose naive path leaves the root is answered with an error and
+  changes nothing; every successful answer to a GET of a regular file is the slice of the file's PRESENT bytes
+  at the offset its Block2 names (full-sized if it announces more, reaching the end if not), and a block-wise
+  fetch, for every szx, equals the file's content -- also right after the file was replaced (PUT / behind the
+  server's back) while it is or was observed, before and after refresh rounds.
 Nothing outside the scratch directory is read or modified: the jail refuses such calls.
 """
 import asyncio
@@ -39,20 +47,38 @@ from vloop import VirtualLoop
 RULE = ("J: pairs over a table of path-significant strings (all pairs) + random concatenations. "
         "P: Uri-Path lists = all lists of length <= 2 over a 15-symbol alphabet ('', '.', '..', 'a/b', "
         "'/', '/etc', '//', NUL, 255/256-char, Unicode, plain names), all length-3 lists over 6 symbols, "
-        "plus random lists, for absolute/relative/'/'/'//' roots. R: requests decoded from wire bytes and "
+        "plus random lists, for absolute/relative/'/'/'//' roots. H: requests decoded from wire bytes and "
         "rendered by the real FileServer in a scratch tree (files of 0/1/15/16/17/1023/1024/1025/2500/5000 "
         "bytes, nested dirs, a non-regular node): full table targets x methods x write x etag config x "
         "If-None-Match x If-Match x ETag; every block of every file for szx 0..7 (+ blocks past the end); "
-        "random histories of 1-6 requests (55% paths into the tree, 45% hostile mutations/random lists). "
+        "S: the server built by the program's own start-up for a table of command lines (16 option groups "
+        "without --write x {alone, --write before/after, root argument first/last/absent = working directory}, "
+        "abbreviated and repeated --write, pairs of groups) and by the bare constructor defaults, each with a "
+        "battery of PUT/DELETE/GET (new file, replacement, conditional, subdirectory, hostile path); "
+        "M: a file of size s1, never/still/once observed (GET Observe:0 through render_to_pipe, or "
+        "add_observation alone), replaced by s2 bytes via PUT / in place / by rename, with a refresh round "
+        "before/after/between two changes or none, then every block for a given szx (quick: full cross of "
+        "how x observation x szx for 100->600 and 600->100, all tick modes with rotating szx, 9 boundary "
+        "pairs up to 5000 bytes; thorough: the full cross); random histories of 1-6 requests (55% paths into "
+        "the tree, 45% hostile mutations/random lists; 25% on a server started from a random command line) with "
+        "observations, local changes and refresh rounds mixed in; random histories of 3-9 steps on ONE file "
+        "(block requests around its present end, size changes, observations, refresh rounds). "
         "A case is non-trivial when the request reached the file system or was rejected by the path check "
         "(J/P: a non-empty right operand / component list); distinct by the full case.")
 TRUSTED = ["interception of file-system access at the os/io/builtins/shutil module attributes "
            "(harness/c19_jail.py); C-level access that bypasses them would not be seen",
-           "mimetypes' one-time database load is done before the jail is active"]
+           "mimetypes' one-time database load is done before the jail is active",
+           "virtual-clock event loop (harness/vloop.py); the stub that replaces the creation of the network "
+           "context when the program is started from a command line"]
 ASSUMPTIONS = ["no symbolic links inside the root and no concurrent modification (TOCTOU) -- OS behaviour "
-               "outside the lexical model",
+               "outside the lexical model; the property quantifies over trees of directories and files",
                "directory entry names returned by the OS and names chosen by tempfile are single proper "
-               "components (hypothesis World.wf of C19_ops_confined)"]
+               "components (hypothesis World.wf of C19_ops_confined)",
+               "the file does not change between the block requests of one fetch (it may change between any "
+               "two other steps)",
+               "command lines outside the modelled tokens (abbreviated options, --opt=value, --register) are "
+               "judged by the oracle only; re-renders set off by a refresh round for a live observer are judged "
+               "by the oracle only"]
 
 SIZES = [0, 1, 15, 16, 17, 1023, 1024, 1025, 2500, 5000]
 LONG255 = "L" * 255
@@ -504,7 +530,13 @@ class Runner:
         argv = case.get("argv")
         if argv is None:
             rootform = sc.root + ("/" if case.get("rootform") == "slash" else "")
-            fs = impl.server(rootform, case["write"], case["etags"])
+            if case.get("defaults"):
+                # the resource as an application builds it that passes nothing but root and logger
+                if case["write"] or not case["etags"]:
+                    raise HarnessError("a 'defaults' case states the documented defaults: read-only, ETags on")
+                fs = impl.fsmod.FileServer(Path(rootform), impl.log)
+            else:
+                fs = impl.server(rootform, case["write"], case["etags"])
             # what FileServerProgram.start_with_options does beside constructing the resource
             self.live.append(self.loop.create_task(fs.check_files_for_refreshes()))
             return fs
@@ -949,6 +981,48 @@ def history_cases(env):
     return out
 
 
+def focused_cases(env):
+    """Random histories that stay on ONE file: observations (opened, ended, resource-level), block requests around
+    the present end of the file, changes of its size behind the server's back and by PUT, refresh rounds, deletion --
+    the soil for state remembered about a file (stat, size, content) going stale."""
+    rng = env.rng
+    out = []
+    for _ in range(env.scale(160, 4000)):
+        f = list(rng.choice([["m.bin"], ["f16"], ["d", "x.txt"], ["f1025"]]))
+        write = rng.random() < 0.5
+        size = {"m.bin": None, "f16": 16, "x.txt": 33, "f1025": 1025}[f[-1]]
+        steps = []
+        if size is None:
+            size = rng.choice([0, 17, 100, 600, 1024, 1500])
+            steps.append({"m": "LW", "comps": f, "size": size, "how": "replace"})
+        for _ in range(rng.randrange(3, 10)):
+            k = rng.choices(["B", "OGET", "OBS", "LW", "PUT", "TICK", "DELETE", "GET"],
+                            [40, 10, 4, 16, 10 if write else 0, 12, 2 if write else 0, 6])[0]
+            if k == "B":
+                szx = rng.randrange(8)
+                bs = 2 ** (min(szx, 6) + 4)
+                last = (size or 0) // bs
+                steps.append({"m": "GET", "comps": f, "b2": [max(0, rng.choice([0, last - 1, last, last, last + 1, rng.randrange(last + 2)])), szx]})
+            elif k in ("OGET", "OBS"):
+                steps.append({"m": k, "comps": f, "end": rng.random() < 0.5})
+            elif k == "LW":
+                how = rng.choice(["inplace", "replace", "replace", "remove"])
+                size = None if how == "remove" else rng.choice([0, 1, 16, 17, 100, 600, 1023, 1024, 1025, 1500, 3000])
+                steps.append({"m": "LW", "comps": f, "size": size or 0, "how": how, "salt": rng.randrange(2)})
+            elif k == "PUT":
+                size = rng.choice([0, 16, 17, 100, 600, 1024, 1025, 3000])
+                steps.append({"m": "PUT", "comps": f, "plen": size, "im": [], "inm": False})
+            elif k == "DELETE":
+                size = None
+                steps.append({"m": "DELETE", "comps": f, "im": []})
+            elif k == "TICK":
+                steps.append({"m": "TICK"})
+            else:
+                steps.append({"m": "GET", "comps": f})
+        out.append({"kind": "R", "write": write, "etags": rng.random() < 0.8, "steps": steps})
+    return out
+
+
 # ---- S: the server as started from the command line ---------------------------------------------------------
 
 # option groups of aiocoap-fileserver that have nothing to do with write permission (`--register` is left out: it
@@ -1028,9 +1102,20 @@ WRITE_BATTERY = [
 ]
 
 
+SHORT_BATTERY = [WRITE_BATTERY[i] for i in (0, 2, 7, 9, 13, 15)]
+
+
+def defaults_cases():
+    return [{"kind": "R", "defaults": True, "write": False, "etags": True, "rootform": rf,
+             "steps": [dict(st) for st in WRITE_BATTERY]} for rf in ("plain", "slash")]
+
+
 def cli_cases():
+    """every command line of the table with the short battery (create, replace, delete, conditional delete,
+    read, list), every fourth one and the shortest ones with the full battery"""
     return [{"kind": "R", "argv": argv, "write": cli_grants_write(argv), "etags": etl != 0,
-             "steps": [dict(st) for st in WRITE_BATTERY]} for argv, etl in argv_table()]
+             "steps": [dict(st) for st in (WRITE_BATTERY if i % 4 == 0 or len(argv) <= 2 else SHORT_BATTERY)]}
+            for i, (argv, etl) in enumerate(argv_table())]
 
 
 # ---- M: a file that changes after it was observed -----------------------------------------------------------
@@ -1040,7 +1125,7 @@ M_PAIRS = [(16, 5000), (1500, 5000), (1024, 1025), (1025, 1024), (5000, 17), (0,
            (1023, 2500)]
 M_HOW = ["put", "inplace", "replace"]
 M_OBS = ["never", "active", "ended", "registered"]
-M_TICK = ["none", "before", "after"]
+M_TICK = ["none", "before", "after", "between"]     # between: change, refresh round, change again
 
 
 def mutation_cases(env):
@@ -1066,7 +1151,7 @@ def mutation_cases(env):
             for obs in M_OBS:
                 for szx in range(8):
                     mk(s1, s2, how, obs, "none", szx)
-                for tick in ("before", "after"):
+                for tick in ("before", "after", "between"):
                     mk(s1, s2, how, obs, tick, n % 8)
                     n += 3
     for s1, s2 in M_PAIRS:
@@ -1087,6 +1172,11 @@ def mutation_history(mc):
     elif mc["obs"] == "registered":
         steps += [{"m": "OBS", "comps": f}, {"m": "GET", "comps": f}]
     if mc["tick"] == "before":
+        steps.append({"m": "TICK"})
+    if mc["tick"] == "between":
+        # a first change that a refresh round notices, then the change the fetch has to reflect
+        mid = (mc["s1"] + mc["s2"]) // 2 + 1
+        steps.append({"m": "LW", "comps": f, "size": mid, "how": "replace"})
         steps.append({"m": "TICK"})
     if mc["how"] == "put":
         steps.append({"m": "PUT", "comps": f, "plen": mc["s2"], "im": [], "inm": False})
@@ -1353,10 +1443,10 @@ def run(env, rep):
         compare(env, rep, pcs, lines, outs, what="request_to_localpath")
 
         # --- R: requests in the scratch tree
-        hist = [c for c in corpus if c.get("kind") == "R"] + table_cases() + sibling_cases() + cli_cases()
+        hist = [c for c in corpus if c.get("kind") == "R"] + table_cases() + sibling_cases() + cli_cases() + defaults_cases()
         fcs = fetch_cases()
         mcs = [c for c in corpus if c.get("kind") == "M"] + mutation_cases(env)
-        hist += history_cases(env)
+        hist += history_cases(env) + focused_cases(env)
         allcomps = {tuple(expand(s["comps"], runner.sc)) for c in hist for s in c["steps"] if "comps" in s}
         allcomps |= {(fc["file"],) for fc in fcs} | {(M_FILE,)}
         allcomps = sorted(allcomps)
